@@ -114,10 +114,12 @@ def mods (x y : Int) : Int :=
   if x ≥ 0 then (if y ≥ 0 then x.tmod y else x.tmod (-y))
   else (if y ≥ 0 then -((-x).tmod y) else -((-x).tmod (-y)))
 
-/-- `divp` -/
+/-- `divp` (as repaired in /repo commit 7d4bca4):
+`(x >= 0) ? ((y >= 0) ? (x / y) : -(x / -y))
+          : ((y >= 0) ? -1 - ((-(x + 1)) / y) : 1 + ((-(x + 1)) / -y))` -/
 def divp (x y : Int) : Int :=
   if x ≥ 0 then (if y ≥ 0 then x.tdiv y else -(x.tdiv (-y)))
-  else (if y ≥ 0 then -((y - 1 - x).tdiv y) else (-y - 1 - x).tdiv (-y))
+  else (if y ≥ 0 then -1 - ((-(x + 1)).tdiv y) else 1 + ((-(x + 1)).tdiv (-y)))
 
 /-- `modp`: `x - y * divp (x, y)` -/
 def modp (x y : Int) : Int := x - y * divp x y
@@ -134,15 +136,15 @@ def modsSteps (x y : Int) : List Int :=
 
 def divpSteps (x y : Int) : List Int :=
   if x ≥ 0 then (if y ≥ 0 then [x.tdiv y] else [-y, x.tdiv (-y), -(x.tdiv (-y))])
-  else (if y ≥ 0 then [y - 1, y - 1 - x, (y - 1 - x).tdiv y, -((y - 1 - x).tdiv y)]
-        else [-y, -y - 1, -y - 1 - x, (-y - 1 - x).tdiv (-y)])
+  else (if y ≥ 0 then [x + 1, -(x + 1), (-(x + 1)).tdiv y, -1 - ((-(x + 1)).tdiv y)]
+        else [x + 1, -(x + 1), -y, (-(x + 1)).tdiv (-y), 1 + ((-(x + 1)).tdiv (-y))])
 
 def modpSteps (x y : Int) : List Int := divpSteps x y ++ [y * divp x y, x - y * divp x y]
 
 /-- the subset of `divpSteps` that are *negations* (the property's wording) -/
 def divpNegations (x y : Int) : List Int :=
   if x ≥ 0 then (if y ≥ 0 then [] else [-y, -(x.tdiv (-y))])
-  else (if y ≥ 0 then [-((y - 1 - x).tdiv y)] else [-y])
+  else (if y ≥ 0 then [-(x + 1)] else [-(x + 1), -y])
 
 def inInt32 (i : Int) : Bool := decide (-2147483648 ≤ i) && decide (i ≤ 2147483647)
 
@@ -171,8 +173,8 @@ def mods32 (x y : Int) : Option Int :=
 
 def divp32 (x y : Int) : Option Int :=
   if x ≥ 0 then (if y ≥ 0 then div32 x y else (div32 x (neg32 y)).map neg32)
-  else (if y ≥ 0 then (div32 (wrap32 (wrap32 (y - 1) - x)) y).map neg32
-        else div32 (wrap32 (wrap32 (neg32 y - 1) - x)) (neg32 y))
+  else (if y ≥ 0 then (div32 (neg32 (wrap32 (x + 1))) y).map fun q => wrap32 (-1 - q)
+        else (div32 (neg32 (wrap32 (x + 1))) (neg32 y)).map fun q => wrap32 (1 + q))
 
 def modp32 (x y : Int) : Option Int := (divp32 x y).map fun q => wrap32 (x - wrap32 (y * q))
 
